@@ -10,8 +10,8 @@ HERE = os.path.dirname(os.path.dirname(os.path.abspath(__file__)))
 CHECKS = {
     "C04": ("exploration",
             "exhaustive small-scope enumeration + Hypothesis; round-trip identity oracle",
-            "Every string of <=3 atoms over a 63-atom lexer-class alphabet (incl. escape-sequence lookalikes) at 12 value sites (one with YAML frontmatter) is emitted and read back "
-            "(exhaustive, ~3.0M round trips), plus generated text/ints/floats/bools/None and the same through "
+            "Every string of <=3 atoms over a 63-atom lexer-class alphabet (incl. escape-sequence lookalikes) at 13 value sites (one with YAML frontmatter, one the only pair of a list) is emitted and read back "
+            "(exhaustive, ~3.3M round trips), plus generated text/ints/floats/bools/None and the same through "
             "octave_write(changes/mutations) followed by the product's own file reader; identity and type are "
             "compared. Exhaustive within the stated alphabet and length, sampled beyond it.",
             "trusts Python's NFC implementation and that one representative per lexer character class behaves like "
